@@ -39,10 +39,21 @@ pub enum KeyChoice {
     /// a fresh attacker key; signer = the apex of a genuinely insecure zone of the hierarchy; that
     /// zone's DNSKEY query is answered with the attacker's self-signed DNSKEY set
     InsecureZone,
+    /// an attacker key with the SAME algorithm and key tag as the target zone's key (only where
+    /// the zone is signed with keys/tag0); signer = the target's zone; that zone's DNSKEY query
+    /// is answered with the attacker's self-signed DNSKEY set
+    CollidingKey,
 }
 
-pub const KEY_CHOICES: [KeyChoice; 6] =
-    [KeyChoice::SiblingZone, KeyChoice::ChildZone, KeyChoice::AncestorZone, KeyChoice::AttackerSameZone, KeyChoice::AttackerOwnZone, KeyChoice::InsecureZone];
+pub const KEY_CHOICES: [KeyChoice; 7] = [
+    KeyChoice::SiblingZone,
+    KeyChoice::ChildZone,
+    KeyChoice::AncestorZone,
+    KeyChoice::AttackerSameZone,
+    KeyChoice::AttackerOwnZone,
+    KeyChoice::InsecureZone,
+    KeyChoice::CollidingKey,
+];
 
 impl KeyChoice {
     pub fn tag(self) -> &'static str {
@@ -53,6 +64,7 @@ impl KeyChoice {
             KeyChoice::AttackerSameZone => "attacker-key+injected-dnskey",
             KeyChoice::AttackerOwnZone => "attacker-zone-key",
             KeyChoice::InsecureZone => "insecure-zone-key",
+            KeyChoice::CollidingKey => "attacker-key-with-colliding-tag",
         }
     }
     fn from_tag(s: &str) -> Option<Self> {
@@ -109,6 +121,10 @@ pub enum Move {
     Rcode(u8),
     /// answer emptied, rcode NOERROR, authority := one record R (+ its RRSIGs)
     Denial { rtype: RecordType, owner: OwnerSel, signed: Signedness },
+    /// answer := the zone's genuine wildcard RRset that would match the query name if nothing
+    /// closer existed, re-owned to the query name, with its genuine RRSIGs; authority cleared
+    /// (`with_proof` = false) or left as it is
+    ReplayWildcard { with_authority: bool },
     /// answer emptied, rcode NXDOMAIN, authority := the zone's genuine SOA with its RRSIGs plus a
     /// forged, unsigned NSEC at the apex that spans the whole zone (apex -> apex)
     ForgedApexNsecWithGenuineSoa,
@@ -149,6 +165,7 @@ impl Fault {
                 Move::Rcode(c) => format!("rcode:={c}"),
                 Move::Denial { rtype, owner, signed } => format!("replace-by-denial({rtype},{owner:?},{signed:?})"),
                 Move::ForgedApexNsecWithGenuineSoa => "replace-by-forged-apex-nsec+genuine-soa".into(),
+                Move::ReplayWildcard { with_authority } => format!("replay-genuine-wildcard(authority-kept={with_authority})"),
             },
         }
     }
@@ -168,6 +185,7 @@ impl Fault {
                 KeyChoice::AncestorZone => "ancestor-key",
                 KeyChoice::AttackerSameZone => "injected-key",
                 KeyChoice::AttackerOwnZone | KeyChoice::InsecureZone => "key-of-insecure-or-nonexistent-zone",
+                KeyChoice::CollidingKey => "colliding-tag-key",
             }
         }
         match self {
@@ -196,6 +214,7 @@ impl Fault {
                     format!("inject({tc},{signed:?})")
                 }
                 Move::ForgedApexNsecWithGenuineSoa => "forged-apex-nsec+genuine-soa".into(),
+                Move::ReplayWildcard { .. } => "replay-genuine-wildcard".into(),
             },
         }
     }
@@ -250,6 +269,8 @@ impl Fault {
             Move::Rcode(v["rcode"].as_u64()? as u8)
         } else if mv == "replace-by-forged-apex-nsec+genuine-soa" {
             Move::ForgedApexNsecWithGenuineSoa
+        } else if mv.starts_with("replay-genuine-wildcard") {
+            Move::ReplayWildcard { with_authority: mv.contains("=true") }
         } else {
             let owner = OWNER_SELS.into_iter().find(|o| format!("{o:?}") == v["owner"].as_str().unwrap_or(""))?;
             let signed = SIGNEDNESS.into_iter().find(|o| format!("{o:?}") == v["signed"].as_str().unwrap_or(""))?;
@@ -315,6 +336,15 @@ fn resolve_key(hier: &Hier, choice: KeyChoice, tz: usize) -> Option<(ZoneKey, Op
             let signer = vsec::n("atk.");
             let k = attacker_key(choice, &signer);
             Some((k.clone(), Some(Injection { at: key_of(&signer, RecordType::DNSKEY), key: k, replace: true })))
+        }
+        KeyChoice::CollidingKey => {
+            let z = &h.zones[tz];
+            if z.keys.first().map(|k| k.mat.id) != Some("tag0") {
+                return None;
+            }
+            let k = ZoneKey::new(keys::TAG[1], torigin, z.keys[0].flags);
+            assert_eq!(k.tag(), z.keys[0].tag(), "colliding key tags differ");
+            Some((k.clone(), Some(Injection { at: key_of(torigin, RecordType::DNSKEY), key: k, replace: true })))
         }
         KeyChoice::InsecureZone => {
             let iname = hier.insecure_name.as_ref()?;
@@ -493,6 +523,35 @@ impl Script {
             }
             Move::Rcode(c) => {
                 m.metadata.response_code = ResponseCode::from(0, *c);
+                true
+            }
+            Move::ReplayWildcard { with_authority } => {
+                let Some(zi) = self.hier.h.zone_for(&q.name, q.query_type) else { return false };
+                let z = &self.hier.h.zones[zi];
+                // the closest published wildcard of the query type whose parent encloses the name
+                let Some(star) = z
+                    .published
+                    .iter()
+                    .filter(|r| r.record_type() == q.query_type && r.name.is_wildcard() && r.name.base_name().zone_of(&q.name) && r.name != q.name)
+                    .map(|r| r.name.clone())
+                    .max_by_key(|n| n.num_labels())
+                else {
+                    return false;
+                };
+                let mut recs: Vec<Record> = z.published.iter().filter(|r| r.name == star && (r.record_type() == q.query_type || is_rrsig_covering(r, &star, q.query_type))).cloned().collect();
+                if !recs.iter().any(|r| r.record_type() == RecordType::RRSIG) {
+                    return false;
+                }
+                for r in recs.iter_mut() {
+                    r.name = q.name.clone();
+                }
+                if !dry {
+                    m.answers = recs;
+                    m.metadata.response_code = ResponseCode::NoError;
+                    if !*with_authority {
+                        m.authorities.clear();
+                    }
+                }
                 true
             }
             Move::ForgedApexNsecWithGenuineSoa => {
@@ -711,7 +770,7 @@ pub fn singles_at(script_probe: &Script, q: &Query, honest: &Message) -> Vec<Fau
             }
         }
     }
-    let mut moves = vec![Move::ForgedApexNsecWithGenuineSoa, Move::ForgeUnsigned, Move::ForgeUnsupportedDs(None), Move::StripAnswer, Move::StripAuthority, Move::StripBoth, Move::Rcode(0), Move::Rcode(2), Move::Rcode(3)];
+    let mut moves = vec![Move::ReplayWildcard { with_authority: false }, Move::ReplayWildcard { with_authority: true }, Move::ForgedApexNsecWithGenuineSoa, Move::ForgeUnsigned, Move::ForgeUnsupportedDs(None), Move::StripAnswer, Move::StripAuthority, Move::StripBoth, Move::Rcode(0), Move::Rcode(2), Move::Rcode(3)];
     for c in KEY_CHOICES {
         moves.push(Move::ForgeSignedBy(c));
         moves.push(Move::ForgeUnsupportedDs(Some(c)));
